@@ -18,10 +18,10 @@ import (
 	"strings"
 
 	"github.com/notaryproject/notation-go"
-	"github.com/opencontainers/go-digest"
 	"github.com/notaryproject/notation-go/verifharness/lib"
 	"github.com/notaryproject/notation-go/verifier"
 	"github.com/notaryproject/notation-go/verifier/trustpolicy"
+	"github.com/opencontainers/go-digest"
 	ocispec "github.com/opencontainers/image-spec/specs-go/v1"
 )
 
